@@ -220,13 +220,15 @@ theorem relC_callee (hs : SimpSound s) (hS : ∀ a prog, codeOf codes a = some p
     {cv : T} {v : Nat} {sb : List (T × T)}
     (hRk : R I csx.env csx.code p { csx.st with stack := rest } g) (hthis : g.this = csx.this) (hinS : S csx.this)
     (hdepth : g.depth = csx.depth) (hcode : ∀ b ∈ csx.code, b < 256)
-    (hWT : WRelM I S w0 wT (viewOf csx) (evalLogs I csx.logs) (balSem I w0 csx.bal)) (hbal : ChainWF csx.bal)
-    (hWS : WRelM I S w0 wS (viewOf csx) (evalLogs I csx.logs) (balSem I w0 sb)) (hsb : ChainWF sb)
+    (hWT : WRelM I S (wd w0 csx.created csx.nonce) wT (viewOf csx) (evalLogs I csx.logs) (balSem I w0 csx.bal))
+    (hbal : ChainWF csx.bal) (hcrx : CrOK S csx.created)
+    (hWS : WRelM I S (wd w0 csx.created csx.nonce) wS (viewOf csx) (evalLogs I csx.logs) (balSem I w0 sb))
+    (hsb : ChainWF sb)
     (hconts : List.Forall₂ (ContRel I p S w0) csx.conts kcs) (hc : codeOf codes t = some prog)
     (hwcode : wS.codeOf t = codeOf codes t) (hcall : op = 0xf1 ∨ op = 0xf2 ∨ op = 0xf4 ∨ op = 0xfa)
     (ht : t < 2 ^ 160) (hcv : cv.WF ∧ cv.width ≤ 256 ∧ cv.eval I = v) :
     RelC I p S w0 (calleeOfG s csx op t ao al ro rl rest prog cv sb) wT (calleeFrameV op g wS t v ao al)
-      (⟨wS, g, ro, rl⟩ :: kcs) := by
+      (⟨wS, g, ro, rl, none⟩ :: kcs) := by
   have hstores : ∀ a, stoOf (stoSet csx.stores csx.this
       { storage := csx.st.storage, transient := csx.st.transient }) a = viewOf csx a := by
     intro a; rw [stoOf_stoSet]; rfl
@@ -234,8 +236,9 @@ theorem relC_callee (hs : SimpSound s) (hS : ∀ a prog, codeOf codes a = some p
     hs hRk hcall ht hcv
   simp only [calleeOfG] at henv ⊢
   refine ⟨⟨?_, rfl, StackRel.nil, henv, hRk.subst.same rfl rfl, MemRel.nil I, MemRel.nil I⟩, ?_, ?_, ?_,
-    hcb t prog hc, ?_, hbal,
-    List.Forall₂.cons ⟨hRk, hthis, hinS, hdepth, hcode, rfl, rfl, hWS.congr (fun a _ => hstores a), hsb, rfl⟩ hconts⟩
+    hcb t prog hc, ?_, hbal, hcrx,
+    List.Forall₂.cons ⟨hRk, hthis, hinS, hdepth, hcode, rfl, rfl,
+      (hWS.setCreated w0.created).congr (fun a _ => hstores a), hsb, rfl, (fun a h => by cases h), hcrx⟩ hconts⟩
   · simp [calleeFrameV, hwcode, hc]
   · rcases hcall with rfl | rfl | rfl | rfl <;> simp [calleeFrameV, hthis]
   · rcases hcall with rfl | rfl | rfl | rfl <;>
@@ -250,7 +253,8 @@ theorem relC_callee (hs : SimpSound s) (hS : ∀ a prog, codeOf codes a = some p
 theorem relC_goOn {csx : CState} {w' : Evm.World} {g g' : Evm.Frame} {rest : List HV} {ok : Bool}
     (hRk : R I csx.env csx.code p { csx.st with stack := rest } g) (hthis : g.this = csx.this) (hinS : S csx.this)
     (hdepth : g.depth = csx.depth) (hcode : ∀ b ∈ csx.code, b < 256)
-    (hW : WRelM I S w0 w' (viewOf csx) (evalLogs I csx.logs) (balSem I w0 csx.bal)) (hbal : ChainWF csx.bal)
+    (hW : WRelM I S (wd w0 csx.created csx.nonce) w' (viewOf csx) (evalLogs I csx.logs) (balSem I w0 csx.bal))
+    (hbal : ChainWF csx.bal) (hcrx : CrOK S csx.created)
     (hconts : List.Forall₂ (ContRel I p S w0) csx.conts kcs)
     (hctx : g'.code = g.code ∧ g'.caller = g.caller ∧ g'.value = g.value ∧ g'.this = g.this ∧
       g'.calldata = g.calldata ∧ g'.isStatic = g.isStatic ∧ g'.depth = g.depth)
@@ -261,7 +265,7 @@ theorem relC_goOn {csx : CState} {w' : Evm.World} {g g' : Evm.Frame} {rest : Lis
   obtain ⟨c1, c2, c3, c4, c5, c6, c7⟩ := hctx
   subst hpc0
   refine ⟨⟨c1.trans hRk.code, ?_, ?_, hRk.env.congr c2 c3 c4 c5 c6, hRk.subst.same rfl rfl, ?_, ?_⟩, c4.trans hthis,
-    hinS, c7.trans hdepth, hcode, hW.congr (fun a _ => rfl), hbal, hconts⟩
+    hinS, c7.trans hdepth, hcode, hW.congr (fun a _ => rfl), hbal, hcrx, hconts⟩
   · show g'.pc = csx.st.pc + 1
     rw [hpc, hRk.pc]
   · rw [hstk]
@@ -273,7 +277,7 @@ theorem relC_goOn {csx : CState} {w' : Evm.World} {g g' : Evm.Frame} {rest : Lis
   · rw [hrd]; exact MemRel.nil I
 
 theorem callGo_corr (hs : SimpSound s) (hmem : cfg.maxMem + 32 ≤ p.memLimit) (hdep : 1024 ≤ p.maxDepth)
-    (hcodes : ∀ a, w0.codeOf a = codeOf codes a) (hS : ∀ a prog, codeOf codes a = some prog → S a)
+    (hcodes : ∀ a, w.codeOf a = codeOf codes a) (hS : ∀ a prog, codeOf codes a = some prog → S a)
     (hcb : ∀ a prog, codeOf codes a = some prog → ∀ b ∈ prog, b < 256)
     (hrel : RelC I p S w0 cs w f kcs) {op : Nat} (hcall : op = 0xf1 ∨ op = 0xf2 ∨ op = 0xf4 ∨ op = 0xfa)
     {t ao al ro rl : Nat} {rest : List HV} {crest : List Nat} (hrest : StackRel I rest crest) (ht : t < 2 ^ 160)
@@ -320,10 +324,7 @@ theorem callGo_corr (hs : SimpSound s) (hmem : cfg.maxMem + 32 ≤ p.memLimit) (
   have hd : ¬ f1t.depth + 1 > p.maxDepth := by rw [e_depth, hrel.depth]; omega
   have hiff := fun r => runStack_call (p := p) hstep hm1 hm2 (by rw [hf1t]; exact hd) kcs r
   rw [hf1t] at hiff
-  have hwcode : w.codeOf t = codeOf codes t := by
-    have := hcodes t
-    unfold Evm.World.codeOf at this ⊢
-    rw [hrel.hW.code]; exact this
+  have hwcode : w.codeOf t = codeOf codes t := hcodes t
   have hR := hrel.hR
   -- the suspended caller
   have hRk : R I cs.env cs.code p { cs.st with stack := rest } f1t :=
@@ -332,10 +333,10 @@ theorem callGo_corr (hs : SimpSound s) (hmem : cfg.maxMem + 32 ≤ p.memLimit) (
   cases hc : codeOf codes t with
   | none =>
     simp only
-    refine Or.inr (Or.inr ⟨_, w, resumeFrame ⟨w, f1t, ro, rl⟩ (.success []), kcs, rfl, rfl, ?_, fun r => ?_,
+    refine Or.inr (Or.inr ⟨_, w, resumeFrame ⟨w, f1t, ro, rl, none⟩ (.success []), kcs, rfl, rfl, ?_, fun r => ?_,
       fun hbb => hbb⟩)
-    · exact relC_goOn (ok := true) (g' := resumeFrame ⟨w, f1t, ro, rl⟩ (.success [])) hRk (e_this.trans hrel.this)
-        hrel.inS (e_depth.trans hrel.depth) hrel.hcode hrel.hW hrel.hbal hrel.conts
+    · exact relC_goOn (ok := true) (g' := resumeFrame ⟨w, f1t, ro, rl, none⟩ (.success [])) hRk (e_this.trans hrel.this)
+        hrel.inS (e_depth.trans hrel.depth) hrel.hcode hrel.hW hrel.hbal hrel.hcr hrel.conts
         ⟨rfl, rfl, rfl, rfl, rfl, rfl, rfl⟩ rfl rfl (by simp [resumeFrame, Evm.Halt.data, writeBytes_nil]) rfl rfl
     · refine (hiff r).trans ?_
       have hstop : Evm.step p w (calleeFrame op f1t w t ao al) = .halt w (.success []) := by
@@ -345,13 +346,13 @@ theorem callGo_corr (hs : SimpSound s) (hmem : cfg.maxMem + 32 ≤ p.memLimit) (
       exact runStack_halt_cons hstop _ kcs r
   | some prog =>
     simp only
-    refine Or.inr (Or.inr ⟨_, w, calleeFrame op f1t w t ao al, ⟨w, f1t, ro, rl⟩ :: kcs, rfl, rfl, ?_, hiff,
+    refine Or.inr (Or.inr ⟨_, w, calleeFrame op f1t w t ao al, ⟨w, f1t, ro, rl, none⟩ :: kcs, rfl, rfl, ?_, hiff,
       fun hbb => ⟨hbb.1, fun kc hm => by
         rcases List.mem_cons.1 hm with rfl | hm
         · exact hbb.1
         · exact hbb.2 kc hm⟩⟩)
     exact relC_callee hs hS hcb hRk (e_this.trans hrel.this) hrel.inS (e_depth.trans hrel.depth) hrel.hcode
-      hrel.hW hrel.hbal hrel.hW hrel.hbal hrel.conts hc hwcode hcall ht ⟨(by decide : 0 < 256), Nat.le_refl _, rfl⟩
+      hrel.hW hrel.hbal hrel.hcr hrel.hW hrel.hbal hrel.conts hc hwcode hcall ht ⟨(by decide : 0 < 256), Nat.le_refl _, rfl⟩
 
 end
 
@@ -371,7 +372,7 @@ def ValueCase (I : Interp) (p : Evm.Params) (s : Simp) (o : Oracle) (cfg : Cfg) 
 
 /-- **the call instructions**: a zero-value call (`CallCorr`) or a value-bearing one (`ValueCase`). -/
 theorem callOut_corr {o : Oracle} (hs : SimpSound s) (hmem : cfg.maxMem + 32 ≤ p.memLimit) (hdep : 1024 ≤ p.maxDepth)
-    (hcodes : ∀ a, w0.codeOf a = codeOf codes a) (hS : ∀ a prog, codeOf codes a = some prog → S a)
+    (hcodes : ∀ a, w.codeOf a = codeOf codes a) (hS : ∀ a prog, codeOf codes a = some prog → S a)
     (hcb : ∀ a prog, codeOf codes a = some prog → ∀ b ∈ prog, b < 256)
     (hrel : RelC I p S w0 cs w f kcs) {op : Nat} (hop : opAt cs.code cs.st.pc = op)
     (hcall : op = 0xf1 ∨ op = 0xf2 ∨ op = 0xf4 ∨ op = 0xfa) (hl : ¬ cs.st.stack.length > 1024) :
@@ -539,7 +540,7 @@ theorem RelC.withConds (hs : SimpSound s) (hrel : RelC I p S w0 cs w f kcs) {con
   have hsubX : SubstOk I X := hR.subst.same hXs hXp
   have hsubY : SubstOk I Y := by rw [hY]; exact addConds_substOk hs hwf hsubX
   refine ⟨⟨c1.trans hR.code, hpc, hstk, hR.env.congr c2 c3 c4 c5 c6, hsubY.same y1 y2, hm, hrd⟩, c4.trans hrel.this,
-    hrel.inS, c7.trans hrel.depth, hrel.hcode, hrel.hW.congr (fun a _ => ?_), hrel.hbal, hrel.conts⟩
+    hrel.inS, c7.trans hrel.depth, hrel.hcode, hrel.hW.congr (fun a _ => ?_), hrel.hbal, hrel.hcr, hrel.conts⟩
   have e1 : st'.storage = cs.st.storage := by rw [y3, hY, (addConds_storage s conds X).1, hXsto]
   have e2 : st'.transient = cs.st.transient := by rw [y4, hY, (addConds_storage s conds X).2, hXtr]
   simp only [viewOf, e1, e2]
@@ -1036,9 +1037,9 @@ variable {s : Simp} {o : Oracle} {cfg : Cfg} {codes : List (Nat × List Nat)}
 
 /-- the same state in another world, described by another balance array -/
 theorem RelC.setBal (hrel : RelC I p S w0 cs w f kcs) {w' : Evm.World} {bal' : List (T × T)}
-    (hW : WRelM I S w0 w' (viewOf cs) (evalLogs I cs.logs) (balSem I w0 bal')) (hwf : ChainWF bal') :
+    (hW : WRelM I S (wd w0 cs.created cs.nonce) w' (viewOf cs) (evalLogs I cs.logs) (balSem I w0 bal')) (hwf : ChainWF bal') :
     RelC I p S w0 { cs with bal := bal' } w' f kcs :=
-  ⟨hrel.hR, hrel.this, hrel.inS, hrel.depth, hrel.hcode, hW.congr (fun a _ => rfl), hwf, hrel.conts⟩
+  ⟨hrel.hR, hrel.this, hrel.inS, hrel.depth, hrel.hcode, hW.congr (fun a _ => rfl), hwf, hrel.hcr, hrel.conts⟩
 
 /-- a world that differs in its balances only -/
 theorem WRelM.setBalances {v : Nat → AcctSto} {lg : List (Nat × List Nat × List Nat)} {bs bs' : Nat → Nat}
@@ -1046,7 +1047,9 @@ theorem WRelM.setBalances {v : Nat → AcctSto} {lg : List (Nat × List Nat × L
     (hcode : w'.code = w.code) (hcr : w'.created = w.created) (hlogs : w'.logs = w.logs)
     (hbal : ∀ a, w'.balanceOf a = bs' a) : WRelM I S w0 w' v lg bs' :=
   ⟨fun a ha slot => by rw [hsto]; exact h.hsto a ha slot, fun a ha slot => by rw [htr]; exact h.htr a ha slot, h.wf,
-   fun a slot ha => by rw [hsto, htr]; exact h.other a slot ha, hcode.trans h.code, hcr.trans h.created,
+   fun a slot ha => by rw [hsto, htr]; exact h.other a slot ha,
+   fun a => (show w'.codeOf a = w.codeOf a by unfold Evm.World.codeOf; rw [hcode]).trans (h.code a),
+   hcr.trans h.created,
    hlogs.trans h.logs, hbal⟩
 
 theorem callWorld_fields (kind : Nat) (w : Evm.World) (a t v : Nat) :
@@ -1138,14 +1141,14 @@ theorem ValueCtx.main_wf (hs : SimpSound s)
 theorem ValueCtx.main_nocode (hs : SimpSound s)
     (hx : ValueCtx I p S w0 s cs w f kcs op t v fv ao al ro rl rest f1t bc conds1) {conds2 : List B}
     (hc2 : ∀ c ∈ conds2, c.WF) {wT : Evm.World} {bal' : List (T × T)}
-    (hWT : WRelM I S w0 wT (viewOf cs) (evalLogs I cs.logs) (balSem I w0 bal')) (hwf : ChainWF bal') :
+    (hWT : WRelM I S (wd w0 cs.created cs.nonce) wT (viewOf cs) (evalLogs I cs.logs) (balSem I w0 bal')) (hwf : ChainWF bal') :
     RelC I p S w0
       { cs with st := { (mainSt s cs bc fv conds1 conds2) with pc := cs.st.pc + 1, stack := .bv 256 (.con 1) :: rest, returndata := [] }, bal := bal' }
-      wT (resumeFrame ⟨w, f1t, ro, rl⟩ (.success [])) kcs := by
+      wT (resumeFrame ⟨w, f1t, ro, rl, none⟩ (.success [])) kcs := by
   obtain ⟨c1, c2, c3, c4, c5, c6, c7⟩ := hx.ectx
   have h1 : RelC I p S w0
       { cs with st := { (mainSt s cs bc fv conds1 conds2) with pc := cs.st.pc + 1, stack := .bv 256 (.con 1) :: rest, returndata := [] } }
-      w (resumeFrame ⟨w, f1t, ro, rl⟩ (.success [])) kcs := by
+      w (resumeFrame ⟨w, f1t, ro, rl, none⟩ (.success [])) kcs := by
     refine hx.hrel.withConds hs (hx.main_wf hs hc2) (X := cs.st) rfl rfl rfl rfl
       ⟨_, rfl, by rw [mainSt_eq], by rw [mainSt_eq], by rw [mainSt_eq], by rw [mainSt_eq]⟩
       ⟨c1, c2, c3, c4, c5, c6, c7⟩ ?_ ?_ ?_ (MemRel.nil I)
@@ -1163,11 +1166,11 @@ theorem ValueCtx.main_callee (hs : SimpSound s) (hS : ∀ a prog, codeOf codes a
     (hcb : ∀ a prog, codeOf codes a = some prog → ∀ b ∈ prog, b < 256)
     (hx : ValueCtx I p S w0 s cs w f kcs op t v fv ao al ro rl rest f1t bc conds1) {conds2 : List B}
     (hc2 : ∀ c ∈ conds2, c.WF) {wT : Evm.World} {bal' : List (T × T)}
-    (hWT : WRelM I S w0 wT (viewOf cs) (evalLogs I cs.logs) (balSem I w0 bal')) (hwf : ChainWF bal')
+    (hWT : WRelM I S (wd w0 cs.created cs.nonce) wT (viewOf cs) (evalLogs I cs.logs) (balSem I w0 bal')) (hwf : ChainWF bal')
     {prog : List Nat} (hc : codeOf codes t = some prog) (hwcode : w.codeOf t = codeOf codes t) :
     RelC I p S w0
       (calleeOfG s { cs with st := mainSt s cs bc fv conds1 conds2, bal := bal' } op t ao al ro rl rest prog fv cs.bal)
-      wT (calleeFrameV op f1t w t v ao al) (⟨w, f1t, ro, rl⟩ :: kcs) := by
+      wT (calleeFrameV op f1t w t v ao al) (⟨w, f1t, ro, rl, none⟩ :: kcs) := by
   obtain ⟨c1, c2, c3, c4, c5, c6, c7⟩ := hx.ectx
   have h1 : RelC I p S w0 { cs with st := { (mainSt s cs bc fv conds1 conds2) with stack := rest } } w f1t kcs := by
     refine hx.hrel.withConds hs (hx.main_wf hs hc2) (X := cs.st) rfl rfl rfl rfl
@@ -1188,7 +1191,7 @@ theorem ValueCtx.main_callee (hs : SimpSound s) (hS : ∀ a prog, codeOf codes a
     · exact Or.inr (Or.inl h)
   exact relC_callee (csx := { cs with st := mainSt s cs bc fv conds1 conds2, bal := bal' }) hs hS hcb h1.hR
     (c4.trans hx.hrel.this) hx.hrel.inS (c7.trans hx.hrel.depth) hx.hrel.hcode
-    (hWT.congr (fun a _ => hview a)) hwf (hx.hrel.hW.congr (fun a _ => hview a)) hx.hrel.hbal hx.hrel.conts hc hwcode
+    (hWT.congr (fun a _ => hview a)) hwf hx.hrel.hcr (hx.hrel.hW.congr (fun a _ => hview a)) hx.hrel.hbal hx.hrel.conts hc hwcode
     hcall hx.ht ⟨hx.hfv.1, by rw [hx.hfv.2.1], hx.hfv.2.2⟩
 
 end
@@ -1302,7 +1305,7 @@ theorem ValueCtx.main_world (hs : SimpSound s) (ho : OracleSound o) (hb : BalHyp
           bal' = (.lit 160 t, .bin .add bt fv) :: (cs.env.address, .bin .sub bc fv) :: cs.bal) ∨
        (op ≠ 0xf1 ∧ conds2 = [] ∧ bal' = cs.bal)) :
     (∀ c ∈ conds2, c.WF) ∧ ChainWF bal' ∧
-      WRelM I S w0 (callWorld op w f.this t v) (viewOf cs) (evalLogs I cs.logs) (balSem I w0 bal') ∧
+      WRelM I S (wd w0 cs.created cs.nonce) (callWorld op w f.this t v) (viewOf cs) (evalLogs I cs.logs) (balSem I w0 bal') ∧
       (BalBound w → ∀ c ∈ conds2, c.eval I = true) ∧
       (BalBound w → BalBound (callWorld op w f.this t v)) := by
   obtain ⟨f1, f2, f3, f4, f5⟩ := callWorld_fields op w f.this t v
@@ -1458,7 +1461,7 @@ theorem ValueCtx.fund_bool (hx : ValueCtx I p S w0 s cs w f kcs op t v fv ao al 
 
 /-- the main path's successor (either kind) against the reference: related, and with the same completions -/
 theorem ValueCtx.main_ok (hs : SimpSound s) (ho : OracleSound o) (hb : BalHyp I cfg w0) (hdep : 1024 ≤ p.maxDepth)
-    (hcodes : ∀ a, w0.codeOf a = codeOf codes a) (hS : ∀ a prog, codeOf codes a = some prog → S a)
+    (hcodes : ∀ a, w.codeOf a = codeOf codes a) (hS : ∀ a prog, codeOf codes a = some prog → S a)
     (hcb : ∀ a prog, codeOf codes a = some prog → ∀ b ∈ prog, b < 256)
     (hx : ValueCtx I p S w0 s cs w f kcs op t v fv ao al ro rl rest f1t bc conds1)
     {crest : List Nat} (hf1t : f1t = (({ f with stack := crest } : Evm.Frame).touch ao al).touch ro rl)
@@ -1484,10 +1487,7 @@ theorem ValueCtx.main_ok (hs : SimpSound s) (ho : OracleSound o) (hb : BalHyp I 
     rw [hx.fund_bool]; simp; exact hle
   have hd : ¬ f1t.depth + 1 > p.maxDepth := by
     rw [hx.ectx.2.2.2.2.2.2, hx.hrel.depth]; omega
-  have hwcode : w.codeOf t = codeOf codes t := by
-    have := hcodes t
-    unfold Evm.World.codeOf at this ⊢
-    rw [hx.hrel.hW.code]; exact this
+  have hwcode : w.codeOf t = codeOf codes t := hcodes t
   subst hf1t
   have hiff := fun r => runStack_callv (p := p) hstep hm1 hm2 hx.hstat hfund hd kcs r
   rw [hx.ectx.2.2.2.1] at hiff
@@ -1600,7 +1600,7 @@ theorem logOut_corr (hs : SimpSound s) (hmem : cfg.maxMem + 32 ≤ p.memLimit)
             have hstep := evm_log_ok (p := p) (w := w) hopc hlog hlc hc1 (by rw [← hr2.length]; exact hn) hns hok
             refine Or.inr (Or.inr ⟨_, _, _, kcs, rfl, rfl, ?_, fun r => runStack_next hstep kcs r,
               fun hbb => ⟨hbb.1.congr (fun a => rfl), hbb.2⟩⟩)
-            refine ⟨?_, ?_, hrel.inS, ?_, hrel.hcode, ?_, hrel.hbal, hrel.conts⟩
+            refine ⟨?_, ?_, hrel.inS, ?_, hrel.hcode, ?_, hrel.hbal, hrel.hcr, hrel.conts⟩
             · exact hR.next' ⟨touch_code .., touch_caller .., touch_value .., touch_this .., touch_calldata ..,
                 touch_isStatic .., touch_returndata ..⟩ rfl rfl rfl (touch_mem ..) rfl (by show f.pc + 1 = _; rw [hR.pc])
                 (hr2.drop _)
@@ -1666,7 +1666,7 @@ variable {cs : CState} {w : Evm.World} {f : Evm.Frame} {kcs : List CCont}
 variable {s : Simp} {o : Oracle} {cfg : Cfg} {codes : List (Nat × List Nat)}
 
 theorem extOut_corr (hs : SimpSound s) (hmem : cfg.maxMem + 32 ≤ p.memLimit)
-    (hcodes : ∀ a, w0.codeOf a = codeOf codes a)
+    (hcodes : ∀ a, w.codeOf a = codeOf codes a)
     (hcb : ∀ a prog, codeOf codes a = some prog → ∀ b ∈ prog, b < 256)
     (hrel : RelC I p S w0 cs w f kcs) (hsat : Sat I cs.st.path) {op : Nat} (hop : opAt cs.code cs.st.pc = op)
     (hext : op = 0x3b ∨ op = 0x3c) (hl : ¬ cs.st.stack.length > 1024) :
@@ -1676,11 +1676,7 @@ theorem extOut_corr (hs : SimpSound s) (hmem : cfg.maxMem + 32 ≤ p.memLimit)
   have hlen := hR.stack.length
   have hlc : ¬ f.stack.length > 1024 := by rw [← hlen]; exact hl
   have hstk := hR.stack
-  have hwcode : ∀ t, w.codeOf t = codeOf codes t := by
-    intro t
-    have := hcodes t
-    unfold Evm.World.codeOf at this ⊢
-    rw [hrel.hW.code]; exact this
+  have hwcode : ∀ t, w.codeOf t = codeOf codes t := hcodes
   unfold extOut
   simp only
   cases hcs : cs.st.stack with
@@ -1774,6 +1770,317 @@ theorem extOut_corr (hs : SimpSound s) (hmem : cfg.maxMem + 32 ≤ p.memLimit)
             · exact Or.inl (Or.inl ⟨_, rfl, rfl, Or.inl ⟨_, rfl⟩⟩)
         · exact Or.inl (Or.inl ⟨_, rfl, rfl, Or.inl ⟨_, rfl⟩⟩)
     · exact Or.inl (Or.inl ⟨_, rfl, rfl, Or.inl ⟨_, rfl⟩⟩)
+
+end
+
+/-! ### CREATE -/
+
+section
+variable {I : Interp} {p : Evm.Params} {S : Nat → Prop} {w0 : Evm.World}
+variable {cs : CState} {w : Evm.World} {f : Evm.Frame} {kcs : List CCont}
+variable {s : Simp} {o : Oracle} {cfg : Cfg} {codes : List (Nat × List Nat)}
+
+theorem isCreateOp_iff (op : Nat) : isCreateOp op = true ↔ op = 0xf0 := by simp [isCreateOp]
+
+/-- a balance array over a start world whose balances are words holds words -/
+theorem balSem_lt_base (hb0 : ∀ a, w0.balanceOf a < 2 ^ 256) : ∀ {chain : List (T × T)}, ChainWF chain → ∀ a,
+    balSem I w0 chain a < 2 ^ 256
+  | [], _, a => hb0 a
+  | (k, v) :: rest, hc, a => by
+    obtain ⟨_, _, a3, a4⟩ := hc (k, v) (List.mem_cons_self ..)
+    simp only [balSem]
+    split
+    · have := T.eval_lt I v a3
+      rw [a4] at this; exact this
+    · exact balSem_lt_base hb0 (fun kv hm => hc kv (List.mem_cons_of_mem _ hm)) a
+
+/-- `fund = popi()` is the literal 0 -/
+theorem fundOf_none (hs : SimpSound s) {fv : HV} {v : Nat} (hwv : WordRel I fv v) (h : fundOf s fv = none) :
+    v = 0 := by
+  obtain ⟨r', er, wf, d⟩ := (toBV256_ok hs I hwv.1 hwv.2.1).ok_inj
+  unfold fundOf at h
+  rw [er] at h
+  cases r' with
+  | con n =>
+    cases n with
+    | zero => rw [← hwv.2.2, ← d]; rfl
+    | succ n => simp at h
+  | sym t' => simp at h
+
+/-- the world the constructor starts in, against the maps of the model: the new account is there with no code and
+    empty maps, nothing else has changed but (`hbal'`) the balances -/
+theorem WRelM.createWorld {cr : List (Nat × List Nat)} {n : Nat} {w' : Evm.World} {v : Nat → AcctSto}
+    {lg : List (Nat × List Nat × List Nat)} {bs bs' : Nat → Nat} (h : WRelM I S (wd w0 cr n) w' v lg bs)
+    {me addr val : Nat} (hS : S addr) (hbal' : ∀ a, (createWorld w' me addr val).balanceOf a = bs' a) :
+    WRelM I S (wd w0 ((addr, []) :: cr) n) (createWorld w' me addr val)
+      (fun b => if b = addr then {} else v b) lg bs' := by
+  have h2 := h.setCode addr []
+  refine ⟨fun a ha slot => ?_, fun a ha slot => ?_, fun a ha kv hk => ?_, fun a slot ha => ?_, fun x => h2.code x,
+    h.created, h.logs, hbal'⟩
+  · show Evm.lookupD (w'.storage.filter _) (a, slot) = _
+    rw [lookupD_filter_acct]
+    by_cases e : a = addr
+    · simp only [if_pos e]; rfl
+    · simp only [if_neg e]; exact h.hsto a ha slot
+  · show Evm.lookupD (w'.transient.filter _) (a, slot) = _
+    rw [lookupD_filter_acct]
+    by_cases e : a = addr
+    · simp only [if_pos e]; rfl
+    · simp only [if_neg e]; exact h.htr a ha slot
+  · by_cases e : a = addr
+    · simp only [if_pos e] at hk; rcases hk with hk | hk <;> exact absurd hk List.not_mem_nil
+    · simp only [if_neg e] at hk; exact h.wf a ha kv hk
+  · have e : a ≠ addr := fun e => ha (e ▸ hS)
+    constructor
+    · show Evm.lookupD (w'.storage.filter _) (a, slot) = _
+      rw [lookupD_filter_acct, if_neg e]; exact (h.other a slot ha).1
+    · show Evm.lookupD (w'.transient.filter _) (a, slot) = _
+      rw [lookupD_filter_acct, if_neg e]; exact (h.other a slot ha).2
+
+/-- the constructor frame `SEVM.create` starts against the frame the reference starts: `csx` is the creator at the
+    CREATE (attempt counted, value moved), `g` the concrete creator with the operands popped and the memory touched,
+    `wS` the world saved for a rollback, `wT` the world the constructor starts in -/
+theorem relC_create (hs : SimpSound s)
+    {csx : CState} {wS wT : Evm.World} {g : Evm.Frame} {addr : Nat} {rest : List HV} {init : List Nat}
+    {cv : T} {v : Nat} {sb : List (T × T)}
+    (hRk : R I csx.env csx.code p { csx.st with stack := rest } g) (hthis : g.this = csx.this) (hinS : S csx.this)
+    (hdepth : g.depth = csx.depth) (hcode : ∀ b ∈ csx.code, b < 256)
+    (hWT : WRelM I S (wd w0 ((addr, []) :: csx.created) csx.nonce) wT
+      (fun b => if b = addr then {} else viewOf csx b) (evalLogs I csx.logs) (balSem I w0 csx.bal))
+    (hbal : ChainWF csx.bal) (hcrx : CrOK S csx.created)
+    (hWS : WRelM I S (wd w0 csx.created csx.nonce) wS (viewOf csx) (evalLogs I csx.logs) (balSem I w0 sb))
+    (hsb : ChainWF sb)
+    (hconts : List.Forall₂ (ContRel I p S w0) csx.conts kcs)
+    (ha : addr < 2 ^ 160) (haS : S addr) (hinit : ∀ b ∈ init, b < 256)
+    (hcv : cv.WF ∧ cv.width ≤ 256 ∧ cv.eval I = v) :
+    RelC I p S w0 (createFrame s csx addr rest init cv sb) wT (createFrameC g addr v init)
+      (⟨wS, g, 0, 0, some addr⟩ :: kcs) := by
+  have hstores : ∀ a, stoOf (stoSet csx.stores csx.this
+      { storage := csx.st.storage, transient := csx.st.transient }) a = viewOf csx a := by
+    intro a; rw [stoOf_stoSet]; rfl
+  have henv : EnvRel I (createFrame s csx addr rest init cv sb).env p (createFrameC g addr v init) := by
+    simp only [createFrame]
+    refine ⟨hRk.env.address, hRk.env.origin, hcv,
+      ⟨(by decide : 0 < 160), (by decide : 160 ≤ 256), Nat.mod_eq_of_lt ha⟩, fun off => ?_, fun i => ?_, rfl, rfl⟩
+    · have hw := readMem_rel (MemRel.nil I) off 32
+      obtain ⟨a1, a2, a3⟩ := wordOfBytes_rel (I := I) hs hw.1 (readMem_length _ _ _)
+      refine ⟨a1, a2, ?_⟩
+      rw [a3, hw.2]; rfl
+    · exact (MemRel.nil I).getD i
+  simp only [createFrame] at henv ⊢
+  refine ⟨⟨rfl, rfl, StackRel.nil, henv, hRk.subst.same rfl rfl, MemRel.nil I, MemRel.nil I⟩, rfl, haS, ?_, hinit, ?_,
+    hbal, hcrx.cons haS (fun b hb => absurd hb List.not_mem_nil),
+    List.Forall₂.cons ⟨hRk, hthis, hinS, hdepth, hcode, rfl, rfl,
+      (hWS.setCreated w0.created).congr (fun a _ => hstores a), hsb, rfl,
+      (fun a h => by cases h; exact ⟨haS, ha⟩), hcrx⟩ hconts⟩
+  · show g.depth + 1 = csx.depth + 1
+    rw [hdepth]
+  · refine hWT.congr (fun a _ => ?_)
+    simp only [viewOf]
+    by_cases e : a = addr
+    · simp only [if_pos e]
+    · simp only [if_neg e, stoOf_stoSet, hstores]; rfl
+
+end
+
+section
+variable {I : Interp} {p : Evm.Params} {S : Nat → Prop} {w0 : Evm.World}
+variable {cs : CState} {w : Evm.World} {f : Evm.Frame} {kcs : List CCont}
+variable {s : Simp} {o : Oracle} {cfg : Cfg} {codes : List (Nat × List Nat)}
+
+/-- what the simulation of CREATE assumes (all of it only when `cfg.create` is on): balances are not followed (PARTIAL:
+    a CREATE with a value other than the literal 0 then ends the path stuck); the reference's allocator hands out the
+    model's addresses — its counter is the start world's plus the model's `nonce`; the allocator's addresses are
+    modelled accounts; the start world's balances are words -/
+def CreateHyp (cfg : Cfg) (p : Evm.Params) (S : Nat → Prop) (w0 : Evm.World) : Prop :=
+  cfg.create = true → cfg.balances = false ∧
+    (∀ n, p.newAddress (w0.created + n) = (cfg.allocBase + n) % 2 ^ 160) ∧
+    (∀ n, S ((cfg.allocBase + n) % 2 ^ 160)) ∧ ∀ a, w0.balanceOf a < 2 ^ 256
+
+theorem CreateHyp.off (hnc : cfg.create = false) : CreateHyp cfg p S w0 := by
+  intro h; rw [hnc] at h; cases h
+
+theorem CreateHyp.cp (h : CreateHyp cfg p S w0) : cfg.create = false ∨ cfg.balances = false := by
+  cases hc : cfg.create
+  · exact Or.inl rfl
+  · exact Or.inr (h hc).1
+
+/-- the codes a frame sees are the codes of the world, of modelled accounts, and bytes -/
+theorem dyn_codes (hcodes : ∀ a, w0.codeOf a = codeOf codes a) (hS : ∀ a prog, codeOf codes a = some prog → S a)
+    (hcb : ∀ a prog, codeOf codes a = some prog → ∀ b ∈ prog, b < 256) (hrel : RelC I p S w0 cs w f kcs) :
+    (∀ a, w.codeOf a = codeOf (codesOf cfg codes cs) a) ∧
+    (∀ a prog, codeOf (codesOf cfg codes cs) a = some prog → S a) ∧
+    (∀ a prog, codeOf (codesOf cfg codes cs) a = some prog → ∀ b ∈ prog, b < 256) := by
+  unfold codesOf
+  refine ⟨fun a => ?_, fun a prog h => ?_, fun a prog h => ?_⟩
+  · rw [hrel.hW.code, wd_codeOf, codeOf_append, hcodes]
+  · rw [codeOf_append] at h
+    cases hc : codeOf cs.created a with
+    | none => rw [hc] at h; exact hS a prog h
+    | some q => rw [hc] at h; cases h; exact (hrel.hcr a _ hc).1
+  · rw [codeOf_append] at h
+    cases hc : codeOf cs.created a with
+    | none => rw [hc] at h; exact hcb a prog h
+    | some q => rw [hc] at h; cases h; exact (hrel.hcr a _ hc).2
+
+/-- **CREATE** (under `CreateHyp`) -/
+theorem createOut_corr (hs : SimpSound s) (hmem : cfg.maxMem + 32 ≤ p.memLimit) (hdep : 1024 ≤ p.maxDepth)
+    (hcodes : ∀ a, w.codeOf a = codeOf codes a) (hch : CreateHyp cfg p S w0)
+    (hrel : RelC I p S w0 cs w f kcs) (hop : opAt cs.code cs.st.pc = 0xf0) (hl : ¬ cs.st.stack.length > 1024) :
+    CallCorr I p S w0 cs w f kcs (createOut s o cfg codes cs 0xf0) := by
+  have hR := hrel.hR
+  have hopc : (f.code[f.pc]?).getD 0 = 0xf0 := hR.op_eq.trans hop
+  have hlen := hR.stack.length
+  have hlc : ¬ f.stack.length > 1024 := by rw [← hlen]; exact hl
+  unfold createOut
+  simp only
+  by_cases hcfg : cfg.create = true
+  swap
+  · have hc' : cfg.create = false := by simpa using hcfg
+    simp only [hc', Bool.not_false, if_true]
+    exact Or.inl ⟨_, rfl, rfl, Or.inl ⟨_, rfl⟩⟩
+  simp only [hcfg, Bool.not_true, Bool.false_eq_true, if_false]
+  obtain ⟨hboff, hal, hSa, hb0⟩ := hch hcfg
+  have hbw : ∀ a, w.balanceOf a < 2 ^ 256 := fun a => by
+    rw [hrel.hW.bal]; exact balSem_lt_base hb0 hrel.hbal a
+  by_cases hst : cs.env.isStatic = true
+  · rw [if_pos hst]
+    by_cases h3 : cs.st.stack.length < 3
+    · rw [if_pos h3]; exact Or.inl ⟨_, rfl, rfl, Or.inr (fun h => Tag.noConfusion h)⟩
+    · rw [if_neg h3]
+      exact Or.inr (Or.inl ⟨_, rfl, rfl,
+        evm_create_static hopc hlc (by rw [← hlen]; omega) (by rw [← hR.env.isStatic]; exact hst)⟩)
+  rw [if_neg hst]
+  have hns : f.isStatic = false := by rw [← hR.env.isStatic]; simpa using hst
+  have hunder : f.stack.length < 3 → Evm.step p w f = .halt w .stackUnderflow := evm_create_short hopc hlc
+  have hs0 := hR.stack
+  cases hstk : cs.st.stack with
+  | nil => exact Or.inr (Or.inl ⟨_, rfl, rfl, hunder (by rw [← hlen, hstk]; simp)⟩)
+  | cons fv r1 =>
+    cases r1 with
+    | nil => exact Or.inr (Or.inl ⟨_, rfl, rfl, hunder (by rw [← hlen, hstk]; simp)⟩)
+    | cons lv r2 =>
+      cases r2 with
+      | nil => exact Or.inr (Or.inl ⟨_, rfl, rfl, hunder (by rw [← hlen, hstk]; simp)⟩)
+      | cons zv rest =>
+        simp only
+        rw [hstk] at hs0
+        obtain ⟨v, c1, hc1, hwv, hs1⟩ := hs0.cons_inv
+        obtain ⟨off, c2, hc2, hwo, hs2⟩ := hs1.cons_inv
+        obtain ⟨len, crest, hc3, hwl, hrest⟩ := hs2.cons_inv
+        subst hc3; subst hc2
+        split
+        · rename_i sz1 loc heq1
+          have e1 : off = loc := (toBV256_con hs hwo heq1).symm
+          subst e1
+          split
+          · rename_i sz2 size heq2
+            have e2 : len = size := (toBV256_con hs hwl heq2).symm
+            subst e2
+            by_cases hml : len ≠ 0 ∧ off + len > cfg.maxMem
+            · rw [if_pos hml]; exact Or.inl ⟨_, rfl, rfl, Or.inr (fun h => Tag.noConfusion h)⟩
+            rw [if_neg hml]
+            cases hlit : litBytes? (readMem cs.st.mem off len) with
+            | none => exact Or.inl ⟨_, rfl, rfl, Or.inl ⟨_, rfl⟩⟩
+            | some init0 =>
+              simp only
+              cases hfund : fundOf s fv with
+              | some fvt =>
+                simp only [hboff, Bool.not_false, if_true]
+                exact Or.inl ⟨_, rfl, rfl, Or.inl ⟨_, rfl⟩⟩
+              | none =>
+                simp only
+                have hv0 := fundOf_none hs hwv hfund
+                subst hv0
+                have hstep := evm_create (p := p) (w := w) hopc hlc hc1 hns
+                have hm : Evm.memOk p off len = true := memOk_of (by
+                  by_cases h0 : len = 0
+                  · exact Or.inl h0
+                  · right; have : ¬ off + len > cfg.maxMem := fun h => hml ⟨h0, h⟩
+                    omega)
+                generalize hg : (({ f with stack := crest } : Evm.Frame).touch off len) = g at *
+                have e_code : g.code = f.code := by rw [← hg, touch_code]
+                have e_caller : g.caller = f.caller := by rw [← hg, touch_caller]
+                have e_value : g.value = f.value := by rw [← hg, touch_value]
+                have e_this : g.this = f.this := by rw [← hg, touch_this]
+                have e_cd : g.calldata = f.calldata := by rw [← hg, touch_calldata]
+                have e_static : g.isStatic = f.isStatic := by rw [← hg, touch_isStatic]
+                have e_rd : g.returndata = f.returndata := by rw [← hg, touch_returndata]
+                have e_mem : g.mem = f.mem := by rw [← hg, touch_mem]
+                have e_pc : g.pc = f.pc := by rw [← hg, touch_pc]
+                have e_depth : g.depth = f.depth := by rw [← hg, touch_depth]
+                have hRk : R I cs.env cs.code p { cs.st with stack := rest } g :=
+                  hR.next' ⟨e_code, e_caller, e_value, e_this, e_cd, e_static, e_rd⟩ rfl rfl rfl e_mem rfl
+                    (by rw [e_pc]; exact hR.pc) (by rw [← hg, touch_stack]; exact hrest)
+                have hcrw : w.created = w0.created + cs.nonce := hrel.hW.created
+                have haddr : p.newAddress (w.created + 1) = (cfg.allocBase + (cs.nonce + 1)) % 2 ^ 160 := by
+                  rw [hcrw, Nat.add_assoc]; exact hal _
+                have hw0' : ({ w with created := w.created + 1 } : Evm.World) =
+                    { w with created := w0.created + (cs.nonce + 1) } := by rw [hcrw, Nat.add_assoc]
+                have hWn : WRelM I S (wd w0 cs.created (cs.nonce + 1)) { w with created := w.created + 1 }
+                    (viewOf cs) (evalLogs I cs.logs) (balSem I w0 cs.bal) := by
+                  rw [hw0']; exact hrel.hW.setCreated _
+                have halt : (cfg.allocBase + (cs.nonce + 1)) % 2 ^ 160 < 2 ^ 160 := Nat.mod_lt _ (by norm_num)
+                by_cases htk : (codeOf codes ((cfg.allocBase + (cs.nonce + 1)) % 2 ^ 160)).isSome = true
+                · -- the address is taken
+                  rw [if_pos htk]
+                  have hcol : (({ w with created := w.created + 1 } : Evm.World).codeOf
+                      (p.newAddress (w.created + 1))).isSome = true := by
+                    rw [haddr]; show (w.codeOf _).isSome = true; rw [hcodes]; exact htk
+                  have hiff := fun r => runStack_of_halts (p := p)
+                    (halts_create_fail hstep hm (by rw [hg]; exact Or.inr (Or.inr hcol))) kcs r
+                  rw [hg] at hiff
+                  refine Or.inr (Or.inr ⟨_, { w with created := w.created + 1 }, failFrame g, kcs, rfl, rfl, ?_, hiff,
+                    fun hbb => ⟨hbb.1.congr (fun a => rfl), hbb.2⟩⟩)
+                  exact relC_goOn (csx := { cs with nonce := cs.nonce + 1 }) (ok := false) (g' := failFrame g) hRk
+                    (e_this.trans hrel.this) hrel.inS (e_depth.trans hrel.depth) hrel.hcode hWn hrel.hbal hrel.hcr
+                    hrel.conts ⟨rfl, rfl, rfl, rfl, rfl, rfl, rfl⟩ rfl rfl rfl rfl rfl
+                rw [if_neg htk]
+                by_cases h5 : cs.depth + 1 > 1024
+                · rw [if_pos h5]; exact Or.inl ⟨_, rfl, rfl, Or.inl ⟨_, rfl⟩⟩
+                rw [if_neg h5]
+                have hfund' : ¬ w.balanceOf g.this < 0 := Nat.not_lt_zero _
+                have hd : ¬ g.depth + 1 > p.maxDepth := by rw [e_depth, hrel.depth]; omega
+                have hcol : (({ w with created := w.created + 1 } : Evm.World).codeOf
+                    (p.newAddress (w.created + 1))).isSome = false := by
+                  rw [haddr]; show (w.codeOf _).isSome = false; rw [hcodes]; simpa using htk
+                have hiff := fun r => runStack_push (p := p)
+                  (halts_create hstep hm (by rw [hg]; exact hfund') (by rw [hg]; exact hd) hcol)
+                  kcs r
+                rw [hg, haddr] at hiff
+                have hinit : Evm.readBytes g.mem off len = init0.map (· % 256) := by
+                  rw [e_mem]
+                  have hmr := readMem_rel hR.mem off len
+                  rw [← hmr.2]; exact litBytes_mod hlit
+                rw [hinit] at hiff
+                have hbeq : ∀ a, (createWorld { w with created := w.created + 1 } g.this
+                    ((cfg.allocBase + (cs.nonce + 1)) % 2 ^ 160) 0).balanceOf a = w.balanceOf a := by
+                  intro a
+                  show ((({ w with created := w.created + 1 } : Evm.World).setCode _ []).transfer g.this _ 0).balanceOf a = _
+                  rw [balanceOf_transfer]
+                  have hb : ∀ x, (({ w with created := w.created + 1 } : Evm.World).setCode
+                      ((cfg.allocBase + (cs.nonce + 1)) % 2 ^ 160) []).balanceOf x = w.balanceOf x := fun _ => rfl
+                  simp only [hb, Nat.sub_zero, Nat.add_zero]
+                  split
+                  · rename_i e
+                    subst e
+                    split
+                    · rename_i e'; rw [← e']; exact Nat.mod_eq_of_lt (hbw _)
+                    · exact Nat.mod_eq_of_lt (hbw _)
+                  · split
+                    · rename_i e; rw [e]
+                    · rfl
+                refine Or.inr (Or.inr ⟨_, _, _, _, rfl, rfl, ?_, hiff, fun hbb =>
+                  ⟨hbb.1.congr hbeq, fun kc hm => by
+                    rcases List.mem_cons.1 hm with rfl | hm
+                    · exact hbb.1.congr (fun a => rfl)
+                    · exact hbb.2 kc hm⟩⟩)
+                exact relC_create (csx := { cs with nonce := cs.nonce + 1 }) hs hRk (e_this.trans hrel.this) hrel.inS
+                  (e_depth.trans hrel.depth) hrel.hcode
+                  (hWn.createWorld (hSa _) (fun a => (hbeq a).trans (hrel.hW.bal a))) hrel.hbal hrel.hcr hWn hrel.hbal
+                  hrel.conts halt (hSa _) (mod256_lt init0) ⟨(by decide : 0 < 256), Nat.le_refl _, rfl⟩
+          · exact Or.inl ⟨_, rfl, rfl, Or.inl ⟨_, rfl⟩⟩
+        · exact Or.inl ⟨_, rfl, rfl, Or.inl ⟨_, rfl⟩⟩
 
 end
 
@@ -1959,21 +2266,26 @@ theorem isCallOp_iff (op : Nat) : isCallOp op = true ↔ (op = 0xf1 ∨ op = 0xf
 section
 variable {s : Simp} {o : Oracle} {cfg : Cfg} {codes : List (Nat × List Nat)} {cs : CState}
 
-/-- `stepC` is `finish` of an instruction it decodes itself, or of the per-frame step (with its stack limit) -/
-theorem codesOf_off (hnc : cfg.create = false) : codesOf cfg codes cs = codes := by
-  simp [codesOf, hnc]
-
-/-- with `Cfg.create` off, CREATE is outside the model -/
+/-- the switch off: CREATE is outside the model -/
 theorem createOut_off (hnc : cfg.create = false) {codes' : List (Nat × List Nat)} {op : Nat} :
     createOut s o cfg codes' cs op = localStuck cs.st (.unsupported op) := by
   simp [createOut, hnc]
 
-theorem stepC_eq (hnc : cfg.create = false) :
+theorem createOut_shape (hcp : cfg.create = false ∨ cfg.balances = false) {codes' : List (Nat × List Nat)} :
+    LocalShape cs (createOut s o cfg codes' cs op) := by
+  rcases hcp with hnc | hboff
+  · rw [createOut_off hnc]; exact localShape_end rfl
+  · unfold createOut
+    simp only [hboff, Bool.not_false, if_true]
+    (repeat' split) <;> shape_leaf
+
+/-- `stepC` is `finish` of an instruction it decodes itself, or of the per-frame step (with its stack limit) -/
+theorem stepC_eq :
     stepC s o cfg codes cs =
       if ¬ cs.st.stack.length > 1024 ∧ isCreateOp (opAt cs.code cs.st.pc) = true then
-        finish cs (localStuck cs.st (.unsupported (opAt cs.code cs.st.pc)))
+        finish cs (createOut s o cfg (codesOf cfg codes cs) cs (opAt cs.code cs.st.pc))
       else if ¬ cs.st.stack.length > 1024 ∧ isCallOp (opAt cs.code cs.st.pc) = true then
-        finish cs (callOut s o cfg codes cs (opAt cs.code cs.st.pc))
+        finish cs (callOut s o cfg (codesOf cfg codes cs) cs (opAt cs.code cs.st.pc))
       else if ¬ cs.st.stack.length > 1024 ∧ isBalOp (opAt cs.code cs.st.pc) = true then
         finish cs (balOut s o cfg cs (opAt cs.code cs.st.pc))
       else if ¬ cs.st.stack.length > 1024 ∧ isShaOp (opAt cs.code cs.st.pc) = true then
@@ -1981,21 +2293,20 @@ theorem stepC_eq (hnc : cfg.create = false) :
       else if ¬ cs.st.stack.length > 1024 ∧ isLogOp (opAt cs.code cs.st.pc) = true then
         finish cs (logOut s cfg cs (opAt cs.code cs.st.pc))
       else if ¬ cs.st.stack.length > 1024 ∧ isExtOp (opAt cs.code cs.st.pc) = true then
-        finish cs (extOut s cfg codes cs (opAt cs.code cs.st.pc))
+        finish cs (extOut s cfg (codesOf cfg codes cs) cs (opAt cs.code cs.st.pc))
       else finish cs (liftOut cs (stepL s o cfg cs.env cs.code cs.st)) := by
   unfold stepC stepL
   simp only
   by_cases hl : cs.st.stack.length > 1024
   · simp only [hl, if_true, not_true_eq_false, false_and, if_false]; rfl
-  · simp only [hl, if_false, not_false_eq_true, true_and, codesOf_off hnc, createOut_off hnc]
+  · simp only [hl, if_false, not_false_eq_true, true_and]
 
 /-- the local output `stepC` finishes, with its shape -/
-theorem stepC_local (hnc : cfg.create = false) :
+theorem stepC_local (hcp : cfg.create = false ∨ cfg.balances = false) :
     ∃ lo, stepC s o cfg codes cs = finish cs lo ∧ LocalShape cs lo := by
-  rw [stepC_eq hnc]
+  rw [stepC_eq]
   split
-  · exact ⟨_, rfl, fun c hc => by simp [localStuck] at hc, fun e he => by
-      simp only [localStuck, List.mem_singleton] at he; subst he; rfl⟩
+  · exact ⟨_, rfl, createOut_shape hcp⟩
   split
   · exact ⟨_, rfl, callOut_shape⟩
   · split
@@ -2010,7 +2321,7 @@ theorem stepC_local (hnc : cfg.create = false) :
             obtain ⟨st', hm', rfl⟩ := List.mem_map.1 hc
             exact ⟨stepL_next_path hm', Or.inl rfl⟩
 
-theorem stepC_next_path (hnc : cfg.create = false) {cs' : CState}
+theorem stepC_next_path (hnc : cfg.create = false ∨ cfg.balances = false) {cs' : CState}
     (h : cs' ∈ (stepC s o cfg codes cs).next) :
     ∃ ext, cs'.st.path = cs.st.path ++ ext := by
   obtain ⟨lo, e, hsh⟩ := stepC_local (s := s) (o := o) (cfg := cfg) (codes := codes) (cs := cs) hnc
@@ -2019,7 +2330,7 @@ theorem stepC_next_path (hnc : cfg.create = false) {cs' : CState}
   · exact (hsh.1 cs' hm).1
   · exact ⟨[], by rw [hp, hsh.2 e' he']; simp⟩
 
-theorem stepC_end_path (hnc : cfg.create = false) {ce : CEnd}
+theorem stepC_end_path (hnc : cfg.create = false ∨ cfg.balances = false) {ce : CEnd}
     (h : ce ∈ (stepC s o cfg codes cs).ends) : ce.e.st.path = cs.st.path := by
   obtain ⟨lo, e, hsh⟩ := stepC_local (s := s) (o := o) (cfg := cfg) (codes := codes) (cs := cs) hnc
   rw [e] at h
@@ -2028,7 +2339,7 @@ theorem stepC_end_path (hnc : cfg.create = false) {ce : CEnd}
 
 /-- the stack discipline of the suspended callers: a step keeps them, pushes one (a call) or pops one (a return);
     it never touches a suspended caller — in particular not its snapshot -/
-theorem stepC_conts (hnc : cfg.create = false) {cs' : CState}
+theorem stepC_conts (hnc : cfg.create = false ∨ cfg.balances = false) {cs' : CState}
     (h : cs' ∈ (stepC s o cfg codes cs).next) :
     cs'.conts = cs.conts ∨ (∃ k, cs'.conts = k :: cs.conts) ∨ (∃ k, cs.conts = k :: cs'.conts) := by
   obtain ⟨lo, e, hsh⟩ := stepC_local (s := s) (o := o) (cfg := cfg) (codes := codes) (cs := cs) hnc
@@ -2103,7 +2414,7 @@ theorem BalCorr.complete (hs : SimpSound s) {G : Prop} {lo : LocalOut} (h : BalC
 /-- **a value-bearing call, soundness.** -/
 theorem valueCase_sound (hs : SimpSound s) (ho : OracleSound o) (hb : BalHyp I cfg w0)
     (hmem : cfg.maxMem + 32 ≤ p.memLimit) (hdep : 1024 ≤ p.maxDepth)
-    (hcodes : ∀ a, w0.codeOf a = codeOf codes a) (hS : ∀ a prog, codeOf codes a = some prog → S a)
+    (hcodes : ∀ a, w.codeOf a = codeOf codes a) (hS : ∀ a prog, codeOf codes a = some prog → S a)
     (hcb : ∀ a prog, codeOf codes a = some prog → ∀ b ∈ prog, b < 256)
     (hrel : RelC I p S w0 cs w f kcs) (hsat : Sat I cs.st.path) {op : Nat} {lo : LocalOut}
     (hv : ValueCase I p s o cfg codes cs w f op lo) : LocalSound I p S w0 cs w f kcs lo := by
@@ -2159,7 +2470,7 @@ theorem valueCase_sound (hs : SimpSound s) (ho : OracleSound o) (hb : BalHyp I c
 /-- **a value-bearing call, completeness.** -/
 theorem valueCase_complete (hs : SimpSound s) (ho : OracleSound o) (hb : BalHyp I cfg w0)
     (hmem : cfg.maxMem + 32 ≤ p.memLimit) (hdep : 1024 ≤ p.maxDepth)
-    (hcodes : ∀ a, w0.codeOf a = codeOf codes a) (hS : ∀ a prog, codeOf codes a = some prog → S a)
+    (hcodes : ∀ a, w.codeOf a = codeOf codes a) (hS : ∀ a prog, codeOf codes a = some prog → S a)
     (hcb : ∀ a prog, codeOf codes a = some prog → ∀ b ∈ prog, b < 256)
     (hrel : RelC I p S w0 cs w f kcs) (hsat : Sat I cs.st.path) {r : Evm.World × Evm.Halt}
     (hrun : RunStack p w f kcs r) {C : Prop} (hC : C) (hbb : BBAll C w kcs) {op : Nat} {lo : LocalOut}
@@ -2242,30 +2553,32 @@ theorem stepC_sound (hs : SimpSound s) (hI : I.Std) (hmem : cfg.maxMem + 32 ≤ 
     (hS : ∀ a prog, codeOf codes a = some prog → S a)
     (hcb : ∀ a prog, codeOf codes a = some prog → ∀ b ∈ prog, b < 256)
     (hob : cfg.balances = true → OracleSound o ∧ BalHyp I cfg w0)
-    (hsi : cfg.sha3 = true → ShaInterp I p cfg) (hnc : cfg.create = false)
+    (hsi : cfg.sha3 = true → ShaInterp I p cfg) (hch : CreateHyp cfg p S w0)
     (hrel : RelC I p S w0 cs w f kcs) (hsat : Sat I cs.st.path) :
     (∀ cs' ∈ (stepC s o cfg codes cs).next, Sat I cs'.st.path → ∃ w' f' kcs', RelC I p S w0 cs' w' f' kcs' ∧
         ∀ r, RunStack p w' f' kcs' r → RunStack p w f kcs r) ∧
     (∀ ce ∈ (stepC s o cfg codes cs).ends, ce.e.tag = .normal → ∀ h, ce.e.out = .halt h →
         ∃ w', RunStack p w f kcs (w', haltWith h (ce.e.data.map (·.eval I))) ∧
-          WRelM I S w0 w' (stoOf ce.stores) (evalLogs I ce.logs) (balSem I w0 ce.bal)) := by
-  rw [stepC_eq hnc]
+          WRelM I S (wd w0 ce.created ce.nonce) w' (stoOf ce.stores) (evalLogs I ce.logs) (balSem I w0 ce.bal)) := by
+  obtain ⟨hcodes', hS', hcb'⟩ := dyn_codes (cfg := cfg) hcodes hS hcb hrel
+  rw [stepC_eq]
   split
-  · have hno : CallCorr I p S w0 cs w f kcs (localStuck cs.st (.unsupported (opAt cs.code cs.st.pc))) :=
-      Or.inl ⟨_, rfl, rfl, Or.inl ⟨_, rfl⟩⟩
-    exact finish_sound hrel hsat hno.sound
+  · rename_i hc
+    have hop : opAt cs.code cs.st.pc = 0xf0 := (isCreateOp_iff _).1 hc.2
+    rw [hop]
+    exact finish_sound hrel hsat (createOut_corr (o := o) hs hmem hdep hcodes' hch hrel hop hc.1).sound
   split
   · rename_i hc
     refine finish_sound hrel hsat ?_
-    rcases callOut_corr (o := o) hs hmem hdep hcodes hS hcb hrel rfl ((isCallOp_iff _).1 hc.2) hc.1 with h | h
+    rcases callOut_corr (o := o) hs hmem hdep hcodes' hS' hcb' hrel rfl ((isCallOp_iff _).1 hc.2) hc.1 with h | h
     · exact h.sound
     · by_cases hbal : cfg.balances = true
-      · exact valueCase_sound hs (hob hbal).1 (hob hbal).2 hmem hdep hcodes hS hcb hrel hsat h
+      · exact valueCase_sound hs (hob hbal).1 (hob hbal).2 hmem hdep hcodes' hS' hcb' hrel hsat h
       · -- balances are off: the value-bearing call is an error report
         obtain ⟨t, v, fv, ao, al, ro, rl, rest, crest, e, _⟩ := h
         rw [e]
         have hno : CallCorr I p S w0 cs w f kcs
-            (callGo s o cfg codes cs (opAt cs.code cs.st.pc) t (some fv) ao al ro rl rest) := callGo_some_off hbal
+            (callGo s o cfg (codesOf cfg codes cs) cs (opAt cs.code cs.st.pc) t (some fv) ao al ro rl rest) := callGo_some_off hbal
         exact hno.sound
   · split
     · rename_i hc
@@ -2295,7 +2608,7 @@ theorem stepC_sound (hs : SimpSound s) (hI : I.Std) (hmem : cfg.maxMem + 32 ≤ 
         · split
           · rename_i hc
             exact finish_sound hrel hsat
-              ((extOut_corr (o := o) hs hmem hcodes hcb hrel hsat rfl ((isExtOp_iff _).1 hc.2) hc.1).sound hs hrel)
+              ((extOut_corr (o := o) hs hmem hcodes' hcb' hrel hsat rfl ((isExtOp_iff _).1 hc.2) hc.1).sound hs hrel)
           · exact finish_sound hrel hsat (local_step_sound hs hI hmem hrel hsat)
 
 /-- **stepC_complete.** -/
@@ -2304,29 +2617,32 @@ theorem stepC_complete (hs : SimpSound s) (ho : OracleSound o) (hI : I.Std) (hme
     (hS : ∀ a prog, codeOf codes a = some prog → S a)
     (hcb : ∀ a prog, codeOf codes a = some prog → ∀ b ∈ prog, b < 256)
     (hb : cfg.balances = true → BalHyp I cfg w0)
-    (hsi : cfg.sha3 = true → ShaInterp I p cfg) (hsok : ShaOK I s cfg cs) (hnc : cfg.create = false)
+    (hsi : cfg.sha3 = true → ShaInterp I p cfg) (hsok : ShaOK I s cfg cs) (hch : CreateHyp cfg p S w0)
     (hrel : RelC I p S w0 cs w f kcs) (hsat : Sat I cs.st.path) {r : Evm.World × Evm.Halt}
     (hrun : RunStack p w f kcs r) (hbb : BBAll (cfg.balances = true) w kcs) :
     (∃ cs' ∈ (stepC s o cfg codes cs).next, Sat I cs'.st.path ∧ ∃ w' f' kcs', RelC I p S w0 cs' w' f' kcs' ∧
         RunStack p w' f' kcs' r ∧ BBAll (cfg.balances = true) w' kcs') ∨
     (∃ ce ∈ (stepC s o cfg codes cs).ends, EndCoversC I S w0 r ce) ∨
     (stepC s o cfg codes cs).bounded ≠ [] := by
-  rw [stepC_eq hnc]
+  obtain ⟨hcodes', hS', hcb'⟩ := dyn_codes (cfg := cfg) hcodes hS hcb hrel
+  rw [stepC_eq]
   split
-  · have hno : CallCorr I p S w0 cs w f kcs (localStuck cs.st (.unsupported (opAt cs.code cs.st.pc))) :=
-      Or.inl ⟨_, rfl, rfl, Or.inl ⟨_, rfl⟩⟩
-    exact finish_complete hrel hsat hrun hbb (hno.complete hrel hsat hrun hbb)
+  · rename_i hc
+    have hop : opAt cs.code cs.st.pc = 0xf0 := (isCreateOp_iff _).1 hc.2
+    rw [hop]
+    exact finish_complete hrel hsat hrun hbb
+      ((createOut_corr (o := o) hs hmem hdep hcodes' hch hrel hop hc.1).complete hrel hsat hrun hbb)
   split
   · rename_i hc
     refine finish_complete hrel hsat hrun hbb ?_
-    rcases callOut_corr (o := o) hs hmem hdep hcodes hS hcb hrel rfl ((isCallOp_iff _).1 hc.2) hc.1 with h | h
+    rcases callOut_corr (o := o) hs hmem hdep hcodes' hS' hcb' hrel rfl ((isCallOp_iff _).1 hc.2) hc.1 with h | h
     · exact h.complete hrel hsat hrun hbb
     · by_cases hbal : cfg.balances = true
-      · exact valueCase_complete hs ho (hb hbal) hmem hdep hcodes hS hcb hrel hsat hrun hbal hbb h
+      · exact valueCase_complete hs ho (hb hbal) hmem hdep hcodes' hS' hcb' hrel hsat hrun hbal hbb h
       · obtain ⟨t, v, fv, ao, al, ro, rl, rest, crest, e, _⟩ := h
         rw [e]
         have hno : CallCorr I p S w0 cs w f kcs
-            (callGo s o cfg codes cs (opAt cs.code cs.st.pc) t (some fv) ao al ro rl rest) := callGo_some_off hbal
+            (callGo s o cfg (codesOf cfg codes cs) cs (opAt cs.code cs.st.pc) t (some fv) ao al ro rl rest) := callGo_some_off hbal
         exact hno.complete hrel hsat hrun hbb
   · split
     · rename_i hc
@@ -2359,7 +2675,7 @@ theorem stepC_complete (hs : SimpSound s) (ho : OracleSound o) (hI : I.Std) (hme
         · split
           · rename_i hc
             exact finish_complete hrel hsat hrun hbb
-              ((extOut_corr (o := o) hs hmem hcodes hcb hrel hsat rfl ((isExtOp_iff _).1 hc.2) hc.1).complete hs ho
+              ((extOut_corr (o := o) hs hmem hcodes' hcb' hrel hsat rfl ((isExtOp_iff _).1 hc.2) hc.1).complete hs ho
                 hrel hsat hrun hbb)
           · exact finish_complete hrel hsat hrun hbb (local_step_complete hs ho hI hmem hrel hsat hrun hbb)
 
